@@ -371,6 +371,37 @@ func TestC01RoundTrip(t *testing.T) {
 
 				other.Set("id", otherID)
 
+				// Where the other type has an attribute of the same name and
+				// of another kind, the member in front carries the value that
+				// is written with the same JSON literal, when there is one.
+				if ots.Name != ts.Name {
+					for _, oa := range ots.Attrs {
+						for _, a := range ts.Attrs {
+							if a.Name != oa.Name || (a.Type == oa.Type && a.Nullable == oa.Nullable) {
+								continue
+							}
+
+							lit, merr := json.Marshal(vals[a.Name])
+							if merr != nil {
+								continue
+							}
+
+							// (the library's own decoder serves as a generator
+							// here; what it does with a literal that is not of
+							// the kind, a recorded panic included, is C06's
+							// subject)
+							func() {
+								defer func() { _ = recover() }()
+
+								if v2, uerr := oa.UnmarshalToType(lit); uerr == nil {
+									other.Set(oa.Name, v2)
+									r.Label("member:same-literal-other-kind")
+								}
+							}()
+						}
+					}
+				}
+
 				col := &jsonapi.Resources{}
 
 				// (now and then a long list in front of the two: sizes at
